@@ -12,14 +12,23 @@ import (
 
 func init() {
 	vRegister("vC15_ask", vC15_ask)
+	vRegister("vC15_reuse", vC15_reuse)
 }
 
 var vC15_timerCh chan time.Time
 var vC15_ready chan struct{}
+var vC15_timerChB chan time.Time
+var vC15_muteA, vC15_repliedA, vC15_repliedB, vC15_reused bool
+var vC15_ctxA *ReceiveContext
 
 // substitutions (see checks/c15.py): the timer pool hands out a timer fired by a harness thread; dead-letter
 // publication of the timeout and the dispatcher queue are environment
-func vC15_timerGet(p *timer.Pool, d time.Duration) *time.Timer      { return &time.Timer{C: vC15_timerCh} }
+func vC15_timerGet(p *timer.Pool, d time.Duration) *time.Timer {
+	if d == 2*time.Second { // the second asker of vC15_reuse: its deadline never passes
+		return &time.Timer{C: vC15_timerChB}
+	}
+	return &time.Timer{C: vC15_timerCh}
+}
 func vC15_timerPut(p *timer.Pool, t *time.Timer)                    {}
 func vC15_deadletter(pid *PID, sender *PID, message any, err error) {}
 func vC15_schedule(d *dispatcher, s schedulable)                    { vC15_ready <- struct{}{} }
@@ -28,7 +37,21 @@ func vC15_reschedule(w *worker, s schedulable)                      { vC15_ready
 // the target's handler: replies with the tag it was asked with
 func vC15_dispatchOne(pid *PID, received *ReceiveContext, now time.Time) {
 	tag := received.message.(int)
-	received.Response(tag)
+	switch tag {
+	case 0: // filler Tell
+	case 7:
+		vC15_ctxA = received
+		if !vC15_muteA {
+			received.Response(tag)
+			vC15_repliedA = true
+		}
+	case 9:
+		if received == vC15_ctxA {
+			vC15_reused = true
+		}
+		received.Response(tag)
+		vC15_repliedB = true
+	}
 }
 
 func vC15_ask() {
@@ -66,6 +89,88 @@ func vC15_ask() {
 			vCover("replied")
 		} else {
 			vCover("timed-out")
+		}
+	}
+	vCover("end")
+}
+
+// Pooled-context reuse: A asks (and may never be answered), a filler Tell makes the mailbox recycle A's receive
+// context, B's Ask takes that very context from the pool. A's deadline may pass at any moment; B's never does.
+// api=0: PID.Ask, api=1: the package-level Ask.
+func vC15_reuse() {
+	api := vCase("api")
+	target := &PID{mailbox: NewUnboundedMailbox(), systemMailbox: NewUnboundedMailbox(), dispatcher: &dispatcher{throughput: 2}, logger: log.DiscardLogger}
+	target.setState(runningState, true)
+	w := &worker{dispatcher: target.dispatcher}
+	caller := &PID{logger: log.DiscardLogger}
+	if api == 1 {
+		target.actorSystem = &actorSystem{noSender: caller}
+	}
+	vC15_timerCh = make(chan time.Time, 1)
+	vC15_timerChB = make(chan time.Time, 1)
+	vC15_ready = make(chan struct{}, 4)
+	vC15_muteA = vNondetBool("muteA")
+	vC15_repliedA, vC15_repliedB, vC15_reused, vC15_ctxA = false, false, false, nil
+	fireA := vNondetBool("fireA")
+	for len(contextCh) > 0 { // start from an empty context pool
+		<-contextCh
+	}
+	var gotA, gotB any
+	var errA, errB error
+	vGo("askA", func() {
+		if api == 1 {
+			gotA, errA = Ask(context.Background(), target, 7, time.Second)
+		} else {
+			gotA, errA = caller.Ask(context.Background(), target, 7, time.Second)
+		}
+	})
+	vGo("timer", func() {
+		if fireA {
+			vC15_timerCh <- time.Time{}
+		}
+	})
+	vGo("worker", func() {
+		for i := 0; i < 3; i++ {
+			<-vC15_ready
+			target.runTurn(w)
+		}
+	})
+	vGo("askB", func() {
+		filler := getContext()
+		filler.build(context.Background(), caller, target, 0, true)
+		target.doReceive(filler)
+		vYield()
+		_ = getContext() // an unrelated Tell elsewhere takes the oldest pooled context (the pool is FIFO)
+		if api == 1 {
+			gotB, errB = Ask(context.Background(), target, 9, 2*time.Second)
+		} else {
+			gotB, errB = caller.Ask(context.Background(), target, 9, 2*time.Second)
+		}
+	})
+	vRun()
+	if vThreadDone(0) {
+		if errA == nil {
+			vAssert(gotA != nil && gotA.(int) == 7, "an Ask that returns a reply returns the reply to its own message (A)")
+		} else {
+			vCover("A-timed-out")
+		}
+	}
+	if vThreadDone(3) {
+		vCover("B-returned")
+		vAssert(errB == nil, "an Ask whose deadline has not passed and whose target replies does not fail (B)")
+		if errB == nil {
+			vAssert(gotB != nil && gotB.(int) == 9, "an Ask that returns a reply returns the reply to its own message (B)")
+		}
+		if vC15_reused {
+			vCover("B-returned-on-A's-context")
+		}
+	}
+	if vStuck() {
+		if vC15_repliedB {
+			vAssert(vThreadDone(3), "a reply given before the caller's deadline is not lost (B never returns)")
+		}
+		if vC15_repliedA && !fireA {
+			vAssert(vThreadDone(0), "a reply given before the caller's deadline is not lost (A never returns)")
 		}
 	}
 	vCover("end")
